@@ -242,11 +242,17 @@ def run(tier, seed):
             continue
         seen.add(sig)
         first = next((i for i, (a, b) in enumerate(zip(c["In"] or [], c["Out"] or [])) if _proj(a) != _proj(b)), None)
+        diff = ""
+        if first is not None:
+            a, b = c["In"][first], c["Out"][first]
+            names = ("severity", "time", "goroutine", "file", "line", "message")
+            fields = [n for n, x, y in zip(names, _proj(a), _proj(b)) if x != y]
+            diff = ("; first difference at entry %d in %s: in sev=%d t=%s goroutine=%d file=%s line=%d msg=%s, out sev=%d t=%s goroutine=%d file=%s line=%d msg=%s"
+                    % (first, "/".join(fields),
+                       a["Sev"], a["Civil"], a["Gid"], a["File"], a["Line"], a["Msg"][:80],
+                       b["Sev"], b["Civil"], b["Gid"], b["File"], b["Line"], b["Msg"][:80]))
         what = ("an entry that was formatted is not decoded back to itself (%d entries in, %d out, decoder status %d%s)"
-                % (len(c["In"] or []), len(c["Out"] or []), c["Err"],
-                   "" if first is None else "; first difference at entry %d: in %s:%d goroutine %d, out %s:%d goroutine %d"
-                   % (first, c["In"][first]["File"], c["In"][first]["Line"], c["In"][first]["Gid"],
-                      c["Out"][first]["File"], c["Out"][first]["Line"], c["Out"][first]["Gid"])))
+                % (len(c["In"] or []), len(c["Out"] or []), c["Err"], diff))
         res.violation(sig, what, {"kind": "failing-input", "input": {"In": c["In"]}, "formatted": c["Stream"],
                                   "decoded": c["Out"], "decoder_error": c["ErrText"],
                                   "replay": "./check C16 --replay <this file>"})
